@@ -67,6 +67,8 @@ type Scn struct {
 	// PostYield: every successful SendMsg of the simulated stream is followed by a scheduling point before it
 	// returns (the packet is under way while its sender has not yet resumed)
 	PostYield bool `json:"postyield,omitempty"`
+	// Rendezvous: the stream has no buffer at all (capacity 0): a send returns when the peer has taken the packet
+	Rendezvous bool `json:"rendezvous,omitempty"`
 }
 
 func (sc Scn) String() string {
@@ -88,6 +90,9 @@ func (sc Scn) String() string {
 	}
 	if sc.PostYield {
 		s += " late-returning-sends"
+	}
+	if sc.Rendezvous {
+		s += " unbuffered-stream"
 	}
 	if sc.DiskSrc {
 		s += " disk-source"
@@ -167,6 +172,7 @@ func xferBody(sc Scn, src fsmodel.Tree, srcDir, destDir string, res *XferRes) Bo
 	return func(t *testing.T, s *Stepper, x *Exec) {
 		link := netsim.NewLink(sc.Cap)
 		link.PostYield = sc.PostYield
+		link.Rendezvous = sc.Rendezvous
 		sctx, scancel := context.WithCancel(context.Background())
 		rctx, rcancel := context.WithCancel(context.Background())
 		defer scancel()
